@@ -477,9 +477,13 @@ impl JitCompiler {
         self.emit_push(mem, map_register(7));
         self.emit_push(mem, map_register(8));
         self.emit_push(mem, map_register(9));
+        // Four pushes and the return address are 40 bytes: pad to 48 to keep RSP 16-byte aligned
+        // in the callee.
+        self.emit_alu64_imm32(mem, 0x81, 5, RSP, 8);
         // 0xe8 is the opcode for a CALL
         self.emit1(mem, 0xe8);
         self.emit_jump_offset(mem, target_pc);
+        self.emit_alu64_imm32(mem, 0x81, 0, RSP, 8);
         self.emit_pop(mem, map_register(9));
         self.emit_pop(mem, map_register(8));
         self.emit_pop(mem, map_register(7));
@@ -546,8 +550,9 @@ impl JitCompiler {
         // Copy stack pointer to R10
         self.emit_mov(mem, RSP, map_register(10));
 
-        // Allocate stack space
-        self.emit_alu64_imm32(mem, 0x81, 5, RSP, ebpf::STACK_SIZE as i32);
+        // Allocate stack space, plus 8 bytes so that RSP is 16-byte aligned inside the generated
+        // code (after the CALL below), as the ABI requires at every helper call site.
+        self.emit_alu64_imm32(mem, 0x81, 5, RSP, ebpf::STACK_SIZE as i32 + 8);
 
         // Use a call to set up a place where we can land after eBPF program's
         // final EXIT call. This will make JIT of BPF EXIT call easier in the
@@ -998,7 +1003,7 @@ impl JitCompiler {
         }
 
         // Deallocate stack space
-        self.emit_alu64_imm32(mem, 0x81, 0, RSP, ebpf::STACK_SIZE as i32);
+        self.emit_alu64_imm32(mem, 0x81, 0, RSP, ebpf::STACK_SIZE as i32 + 8);
 
         self.emit_pop(mem, R15);
         self.emit_pop(mem, R14);
